@@ -293,7 +293,7 @@ def fresh_renders(run):
 
 
 # ------------------------------------------------------------------------------------------ O-C16: stages in subprocesses
-def c16_oracle(run, cap=240):
+def c16_oracle(run, cap=300, stage_cap_ms=5000):
     def go():
         d, binp = run["dir"], run["bin"]
         cases_p = os.path.join(d, "c16cases.jsonl")
@@ -302,7 +302,7 @@ def c16_oracle(run, cap=240):
         fails, stages, batches, done = [], collections.Counter(), 0, 0
         while start < total and batches < 400:
             batches += 1
-            cmd = [binp, "c16", "--cases", cases_p, "--start", str(start)] + (["--skip", ",".join(skip)] if skip else [])
+            cmd = [binp, "c16", "--cases", cases_p, "--start", str(start), "--stage-cap-ms", str(stage_cap_ms)] + (["--skip", ",".join(skip)] if skip else [])
             t0 = time.time()
             try:
                 p = subprocess.run(cmd, capture_output=True, text=True, errors="replace", timeout=cap, env=vflib.ENV)
@@ -312,7 +312,9 @@ def c16_oracle(run, cap=240):
                 rc, timed = None, True
             begin, last_msg, finished = None, None, False
             for line in out.splitlines():
-                if line.startswith("PANICMSG "):
+                if line.startswith("TIMEOUT "):
+                    timed = True
+                elif line.startswith("PANICMSG "):
                     last_msg = line[9:]
                 elif line.startswith("BEGIN "):
                     _, i, st = line.split(" ", 2)
@@ -338,7 +340,7 @@ def c16_oracle(run, cap=240):
                 continue
             i, st = begin
             fails.append({"case": i, "stage": st, "status": "timeout" if timed else "crash",
-                          "detail": "wall-clock cap %ds" % cap if timed else "process exit %s (signal: stack overflow / abort)" % rc,
+                          "detail": "wall-clock cap per stage %d ms" % stage_cap_ms if timed else "process exit %s (signal: stack overflow / abort)" % rc,
                           "ms": int((time.time() - t0) * 1000)})
             stages[st.split(":")[0] + ":" + ("timeout" if timed else "crash")] += 1
             skip = (skip if i == start else []) + [st]
